@@ -114,7 +114,10 @@ theorem C05_shape (V width : Nat) (hw : 0 < width) (frames : List Frame)
   exact ⟨a, by simpa using b, c, d⟩
 
 /-- The reported entries are the forward recursion of the previous map at the kept
-prefixes — in particular the order of the output is the order of the selection. -/
+prefixes — in particular the order of the output is the order of the selection.
+(Audit: a statement about the SPECIFICATION recursion `beamStep` only — it reads its definition out
+pointwise, `stepFn` being the textbook forward step; it says nothing about the array code. The link to the
+code is `C05_refines_step`.) -/
 theorem C05_step_values (V : Nat) (f : Frame) (keep : List (List Nat)) (bm : Beam) (p : List Nat) :
     (beamStep V f keep bm).get p =
       if p ∈ keep ∧ p ∈ cands V bm then stepFn V f bm.get p else (0, 0) :=
@@ -619,5 +622,319 @@ example : (search true 1 2 2 (lmFrames 1 2 none (histLM 1 exF) [] (initState, [[
     = [[0], []] := by decide +kernel
 example : (search true 1 2 2 (lmFrames 1 2 none (histLM 1 exF) [] (initState, [[]]) exIns)).1.probs
     = [.fin (3/8), .fin (1/4)] := by decide +kernel
+
+/-! ## Audit: the hypotheses on an instance with TWO tokens, a merge and a pruning in the same frame
+
+The instances above have `V = 1`, where the flat candidate index `k·V + v`, `ind / V`, `ind % V` and the
+token comparisons are degenerate. `au*`: `V = 2` (token 0: 1/2, token 1: 1/4, blank 1/4), width 3, two frames.
+At the second frame the 3 slots `[0]`, `[1]`, `[]` have 9 candidates: the two extensions of `[]` are MERGED into
+the slots holding `[0]` and `[1]` (their own entries become `-inf`), and of the 7 distinct candidate prefixes
+only 3 survive (`[0]` 1/2, `[1]` 3/16 and one of the tied `[0,1]` / `[1,0]` at 1/8): `[1,0]`, `[]`, `[0,0]`,
+`[1,1]` are PRUNED. -/
+
+def auH : XR := .fin (1/2)
+def auQ : XR := .fin (1/4)
+
+def auFrames : List FrameIn := [
+  { ext := [[auH, auQ]], nonext := [auH, auQ], blank := auQ, sel := some [0, 1, 2] },
+  { ext := List.replicate 3 [auH, auQ], nonext := [auH, auQ], blank := auQ, sel := some [6, 7, 1] }]
+
+def auSpec : Ctc.Frame :=
+  { blank := 1/4, tok := fun v => if v = 0 then 1/2 else 1/4, ext := fun _ v => if v = 0 then 1/2 else 1/4 }
+
+-- the candidate totals of the second call: -inf at the two merged extensions (flat indices 4, 5)
+example : (advance true 2 3 (List.replicate 3 [auH, auQ]) [auH, auQ] auQ
+      (advance true 2 3 [[auH, auQ]] [auH, auQ] auQ initState (some [0, 1, 2])).st (some [6, 7, 1])).cand
+    = [.fin 0, .fin (1/8), .fin (1/8), .fin 0, .negInf, .negInf, .fin (1/2), .fin (3/16), .fin (1/16)] := by
+  decide +kernel
+
+theorem auFrames_good : GoodRun 2 3 initState auFrames [auSpec, auSpec] := by
+  refine ⟨[0, 1, 2], rfl, ⟨rfl, ?_, ?_⟩, ?_, ?_, by decide +kernel, ?_⟩
+  · intro v hv
+    match v, hv with
+    | 0, _ => rfl
+    | 1, _ => rfl
+  · intro k hk v hv
+    rw [(validB_init k).1 hk]
+    match v, hv with
+    | 0, _ => rfl
+    | 1, _ => rfl
+  · intro r hr x hx
+    simp only [List.mem_singleton] at hr
+    subst hr
+    simp only [List.mem_cons, List.mem_nil_iff, or_false] at hx
+    rcases hx with rfl | rfl <;> rfl
+  · intro x hx
+    simp only [List.mem_cons, List.mem_nil_iff, or_false] at hx
+    rcases hx with rfl | rfl <;> rfl
+  · refine ⟨[6, 7, 1], rfl, ⟨rfl, ?_, ?_⟩, ?_, ?_, by decide +kernel, trivial⟩
+    · intro v hv
+      match v, hv with
+      | 0, _ => rfl
+      | 1, _ => rfl
+    · intro k hk v hv
+      have hk3 : k < 3 := by
+        have := (validB_iff.1 hk).1
+        rw [(advance_sized true 2 3 _ _ _ _ _).1] at this
+        exact this
+      match k, hk3, v, hv with
+      | 0, _, 0, _ => rfl
+      | 0, _, 1, _ => rfl
+      | 1, _, 0, _ => rfl
+      | 1, _, 1, _ => rfl
+      | 2, _, 0, _ => rfl
+      | 2, _, 1, _ => rfl
+    · intro r hr x hx
+      simp only [List.replicate, List.mem_cons, List.mem_nil_iff, or_false, or_self] at hr
+      subst hr
+      simp only [List.mem_cons, List.mem_nil_iff, or_false] at hx
+      rcases hx with rfl | rfl <;> rfl
+    · intro x hx
+      simp only [List.mem_cons, List.mem_nil_iff, or_false] at hx
+      rcases hx with rfl | rfl <;> rfl
+
+theorem auSpec_nonneg : auSpec.Nonneg := by
+  refine ⟨by decide +kernel, fun v => ?_, fun _ v => ?_⟩ <;>
+    (show (0 : Rat) ≤ if v = 0 then 1/2 else 1/4; split <;> decide +kernel)
+
+theorem auSpecs_nonneg : ∀ f ∈ [auSpec, auSpec], f.Nonneg := by
+  intro f hf
+  simp only [List.mem_cons, List.mem_nil_iff, or_false] at hf
+  rcases hf with rfl | rfl <;> exact auSpec_nonneg
+
+example : (search true 2 3 2 auFrames).1.prefixes = [[0], [1], [0, 1]] := by decide +kernel
+example : (search true 2 3 2 auFrames).1.probs = [.fin (1/2), .fin (3/16), .fin (1/8)] := by decide +kernel
+-- the survivors per frame
+example : keepsOf 2 3 initState auFrames = [[[0], [1], []], [[0], [1], [0, 1]]] := by decide +kernel
+-- pruning is real: `[1,0]` has the same true mass 1/8 as the surviving `[0,1]` (a tie `topk` broke) and is not
+-- reported, nor is `[]` (1/16); after two frames the three survivors still carry their full true mass
+example : Ctc.mass 2 [auSpec, auSpec] [1, 0] = 1/8 ∧ Ctc.mass 2 [auSpec, auSpec] [0, 1] = 1/8
+    ∧ Ctc.mass 2 [auSpec, auSpec] [0] = 1/2 ∧ Ctc.mass 2 [auSpec, auSpec] [] = 1/16 := by decide +kernel
+
+/-! A third frame makes "never more" STRICT: `[]` was pruned at frame 2, so the alignments `blank blank 0`
+(mass 1/32) no longer reach `[0]`: reported 5/16 < true mass 11/32. -/
+
+theorem auLink (st : State) (h3 : st.nb.length = 3) :
+    FrameLink 2 auSpec (List.replicate 3 [auH, auQ]) [auH, auQ] auQ st := by
+  refine ⟨rfl, ?_, ?_⟩
+  · intro v hv
+    match v, hv with
+    | 0, _ => rfl
+    | 1, _ => rfl
+  · intro k hk v hv
+    have hk3 : k < 3 := h3 ▸ (validB_iff.1 hk).1
+    match k, hk3, v, hv with
+    | 0, _, 0, _ => rfl
+    | 0, _, 1, _ => rfl
+    | 1, _, 0, _ => rfl
+    | 1, _, 1, _ => rfl
+    | 2, _, 0, _ => rfl
+    | 2, _, 1, _ => rfl
+
+theorem auFin3 : (∀ r ∈ List.replicate 3 [auH, auQ], ∀ x ∈ r, x.isFin = true) ∧ (∀ x ∈ [auH, auQ], x.isFin = true) := by
+  constructor
+  · intro r hr x hx
+    simp only [List.replicate, List.mem_cons, List.mem_nil_iff, or_false, or_self] at hr
+    subst hr
+    simp only [List.mem_cons, List.mem_nil_iff, or_false] at hx
+    rcases hx with rfl | rfl <;> rfl
+  · intro x hx
+    simp only [List.mem_cons, List.mem_nil_iff, or_false] at hx
+    rcases hx with rfl | rfl <;> rfl
+
+def auFrames3 : List FrameIn := auFrames ++
+  [{ ext := List.replicate 3 [auH, auQ], nonext := [auH, auQ], blank := auQ, sel := some [6, 8, 2] }]
+
+theorem auFrames3_good : GoodRun 2 3 initState auFrames3 [auSpec, auSpec, auSpec] := by
+  obtain ⟨s, hs, hl, he, hn, hk, _⟩ := auFrames_good
+  simp only [Option.some.injEq] at hs
+  subst hs
+  refine ⟨[0, 1, 2], rfl, hl, he, hn, hk, [6, 7, 1], rfl, auLink _ ?_, auFin3.1, auFin3.2, by decide +kernel,
+    [6, 8, 2], rfl, auLink _ ?_, auFin3.1, auFin3.2, by decide +kernel, trivial⟩
+  · exact (advance_sized true 2 3 _ _ _ _ _).1
+  · exact (advance_sized true 2 3 _ _ _ _ _).1
+
+example : (search true 2 3 3 auFrames3).1.prefixes = [[0], [0, 1], [1, 0]]
+    ∧ (search true 2 3 3 auFrames3).1.probs = [.fin (5/16), .fin (3/16), .fin (3/32)] := by decide +kernel
+example : Ctc.mass 2 [auSpec, auSpec, auSpec] [0] = 11/32 ∧ Ctc.mass 2 [auSpec, auSpec, auSpec] [0, 1] = 3/16 := by
+  decide +kernel
+-- C05_array_sub on slot 0: q = 5/16 ≤ mass = 11/32, and the inequality is strict
+example : (5/16 : Rat) ≤ Ctc.mass 2 [auSpec, auSpec, auSpec] ((search true 2 3 3 (auFrames3 ++ [])).1.prefixes.getD 0 []) :=
+  (C05_array_sub (V := 2) (by decide) 3 (by decide) auFrames3 [] [auSpec, auSpec, auSpec] auFrames3_good
+    (by intro f hf
+        simp only [List.mem_cons, List.mem_nil_iff, or_false] at hf
+        rcases hf with rfl | rfl | rfl <;> exact auSpec_nonneg)
+    0 (by decide) (5/16) (by decide +kernel)).2.2.1
+
+-- C05_refines / C05_valid_run / C05_module / C05_array_sub / C05_array_len on this run (+ one padding frame)
+example := C05_refines (V := 2) (by decide) 3 auFrames [auSpec, auSpec] auFrames_good
+example := C05_valid_run (V := 2) (by decide) 3 (by decide) auFrames [auSpec, auSpec] auFrames_good
+example := C05_module (V := 2) (by decide) 3 (by decide) auFrames
+  [{ ext := List.replicate 3 [auH, auQ], nonext := [auH, auQ], blank := auQ, sel := none }] [auSpec, auSpec]
+  auFrames_good auSpecs_nonneg
+example := C05_array_sub (V := 2) (by decide) 3 (by decide) auFrames [] [auSpec, auSpec] auFrames_good auSpecs_nonneg
+  2 (by decide) (1/8) (by decide +kernel)
+example := C05_array_len (V := 2) (by decide) 3 (by decide) auFrames [] [auSpec, auSpec] auFrames_good auSpecs_nonneg
+  2 (by decide) (1/8) (by decide +kernel)
+-- C05_shape on the map recursion the array code stands for
+example := Ctc.C05_shape 2 3 (by decide) [auSpec, auSpec] _
+  (C05_valid_run (V := 2) (by decide) 3 (by decide) auFrames [auSpec, auSpec] auFrames_good)
+-- C05_sub with these survivors (hlen: one survivor list per frame)
+example := Ctc.C05_sub 2 [auSpec, auSpec] (keepsOf 2 3 initState auFrames) auSpecs_nonneg (by decide +kernel) [0]
+
+/-- the state after the first frame, as a `WF` state standing for the map after one frame: the step-level
+theorems (`C05_isprefix_inv`, `C05_refines_step`, `C05_topk_link`) applied to the SECOND call (merge + pruning) -/
+def auSt1 : State := (advance true 2 3 [[auH, auQ]] [auH, auQ] auQ initState (some [0, 1, 2])).st
+
+theorem auStep1 : WF 2 auSt1 ∧ Rep (Ctc.beamRun 2 [auSpec] [[[0], [1], []]] Ctc.beamInit) auSt1 := by
+  have h := C05_refines (V := 2) (by decide) 3 (auFrames.take 1) [auSpec] (by
+    obtain ⟨s, hs, hl, he, hn, hk, _⟩ := auFrames_good
+    exact ⟨s, hs, hl, he, hn, hk, trivial⟩)
+  exact h
+
+theorem auLink2 : FrameLink 2 auSpec (List.replicate 3 [auH, auQ]) [auH, auQ] auQ auSt1 := by
+  obtain ⟨_, hs, _, _, _, _, hrest⟩ := auFrames_good
+  obtain ⟨_, _, hl, _⟩ := hrest
+  simp only [Option.some.injEq] at hs
+  subst hs
+  exact hl
+
+example := C05_isprefix_inv (V := 2) (by decide) 3 auStep1.1 auLink2 [6, 7, 1] (by decide +kernel)
+  (by intro r hr x hx
+      simp only [List.replicate, List.mem_cons, List.mem_nil_iff, or_false, or_self] at hr
+      subst hr
+      simp only [List.mem_cons, List.mem_nil_iff, or_false] at hx
+      rcases hx with rfl | rfl <;> rfl)
+  (by intro x hx
+      simp only [List.mem_cons, List.mem_nil_iff, or_false] at hx
+      rcases hx with rfl | rfl <;> rfl)
+example := C05_refines_step (V := 2) (by decide) 3 auStep1.1 auLink2 [6, 7, 1] (by decide +kernel)
+  (by intro r hr x hx
+      simp only [List.replicate, List.mem_cons, List.mem_nil_iff, or_false, or_self] at hr
+      subst hr
+      simp only [List.mem_cons, List.mem_nil_iff, or_false] at hx
+      rcases hx with rfl | rfl <;> rfl)
+  (by intro x hx
+      simp only [List.mem_cons, List.mem_nil_iff, or_false] at hx
+      rcases hx with rfl | rfl <;> rfl) auStep1.2
+example := C05_topk_link (V := 2) (by decide) 3 (by decide) auStep1.1 auLink2 auStep1.2 [6, 7, 1] (by decide +kernel)
+  (by intro r hr x hx
+      simp only [List.replicate, List.mem_cons, List.mem_nil_iff, or_false, or_self] at hr
+      subst hr
+      simp only [List.mem_cons, List.mem_nil_iff, or_false] at hx
+      rcases hx with rfl | rfl <;> rfl)
+  (by intro x hx
+      simp only [List.mem_cons, List.mem_nil_iff, or_false] at hx
+      rcases hx with rfl | rfl <;> rfl)
+-- C05_slot_total / C05_sorted_step / C05_no_nan_step on the second call
+example := C05_slot_total 2 3 (List.replicate 3 [auH, auQ]) [auH, auQ] auQ auSt1 [6, 7, 1]
+  auStep1.1.clean.1 auStep1.1.clean.2 rfl 2 (by decide +kernel) (by decide +kernel)
+example := C05_sorted_step 2 3 (List.replicate 3 [auH, auQ]) [auH, auQ] auQ auSt1 [6, 7, 1]
+  auStep1.1.clean.1 auStep1.1.clean.2 rfl (by decide +kernel)
+-- C05_filler: width 5 > 3 candidates at the first frame: slots 3, 4 are filler
+example := C05_filler true 2 5 [[auH, auQ]] [auH, auQ] auQ initState none 4 (by decide) (by decide)
+-- C05_sorted_array
+example := C05_sorted_array 2 3 (auFrames.take 1) (auFrames.getD 1 ⟨[], [], .nan, none⟩) [6, 7, 1]
+  (by intro g hg
+      simp only [auFrames, List.take, List.mem_cons, List.mem_nil_iff, or_false] at hg
+      subst hg
+      refine ⟨?_, ?_, rfl⟩
+      · intro r hr x hx
+        simp only [List.mem_singleton] at hr
+        subst hr
+        simp only [List.mem_cons, List.mem_nil_iff, or_false] at hx
+        rcases hx with rfl | rfl <;> rfl
+      · intro x hx
+        simp only [List.mem_cons, List.mem_nil_iff, or_false] at hx
+        rcases hx with rfl | rfl <;> rfl)
+  (by refine ⟨?_, ?_, rfl⟩
+      · intro r hr x hx
+        simp only [auFrames, List.getD, List.getElem?_cons_succ, List.getElem?_cons_zero, Option.getD_some,
+          List.replicate, List.mem_cons, List.mem_nil_iff, or_false, or_self] at hr
+        subst hr
+        simp only [List.mem_cons, List.mem_nil_iff, or_false] at hx
+        rcases hx with rfl | rfl <;> rfl
+      · intro x hx
+        simp only [auFrames, List.getD, List.getElem?_cons_succ, List.getElem?_cons_zero, Option.getD_some,
+          List.mem_cons, List.mem_nil_iff, or_false] at hx
+        rcases hx with rfl | rfl <;> rfl)
+  rfl (by decide +kernel)
+
+/-! ### The LM plumbing with two tokens: a history-dependent fused model, a state routed through `in_next`
+
+`auF h v`: the LM factor of `v` after history `h` is 1/8 when `v` repeats the last token of `h`, else 1 — it
+depends on the history's last token and on `v`. At the second frame slot 2 is an EXTENSION (`[0,1]` from slot 0),
+so its state comes from `in_next` of slot 0; slots 0 and 1 did not extend and keep their states. -/
+
+def auF : List Nat → Nat → Rat := fun h v => if h.getLast? = some v then 1/8 else 1
+def auIns : List AcIn := [⟨[auH, auQ], auQ, some [0, 1, 2]⟩, ⟨[auH, auQ], auQ, some [6, 7, 1]⟩]
+def auLmSpec : Ctc.Frame :=
+  { blank := 1/4, tok := fun v => if v = 0 then 1/2 else 1/4,
+    ext := fun q v => fuseQ none (auF q v) (if v = 0 then 1/2 else 1/4) (1/4) }
+
+theorem auIns_good : LMGood 2 3 none (histLM 2 auF) [] auF (initState, [[]]) auIns [auLmSpec, auLmSpec] := by
+  refine ⟨[0, 1, 2], rfl, rfl, ?_, fun _ _ => rfl, auFin3.2, by decide +kernel,
+    [6, 7, 1], rfl, rfl, ?_, fun _ _ => rfl, auFin3.2, by decide +kernel, trivial⟩
+  · intro v hv
+    match v, hv with
+    | 0, _ => rfl
+    | 1, _ => rfl
+  · intro v hv
+    match v, hv with
+    | 0, _ => rfl
+    | 1, _ => rfl
+
+example : (search true 2 3 2 (lmFrames 2 3 none (histLM 2 auF) [] (initState, [[]]) auIns)).1.prefixes
+    = [[0], [1], [0, 1]] := by decide +kernel
+-- the states after the two frames: `[]` under `[0]` and `[1]` (kept), `[0]` under `[0,1]` (from `in_next` of slot 0):
+-- each is its prefix minus the newest token, i.e. valid for its own prefix
+example : (lmStep true 2 3 none (histLM 2 auF) []
+      (lmStep true 2 3 none (histLM 2 auF) [] (initState, [[]]) (auIns.getD 0 ⟨[], .nan, none⟩)).1
+      (auIns.getD 1 ⟨[], .nan, none⟩)).1.2 = [[], [], [0]] := by decide +kernel
+
+example := C05_lm_plumbing (V := 2) (by decide) 3 none [] [] (histLM_ok 2 auF) rfl auIns [auLmSpec, auLmSpec] auIns_good
+example := C05_module_lm (V := 2) (by decide) 3 (by decide) none [] [] (histLM_ok 2 auF) rfl auIns [] [auLmSpec, auLmSpec]
+  auIns_good (by
+    intro f hf
+    simp only [List.mem_cons, List.mem_nil_iff, or_false] at hf
+    have hn : auLmSpec.Nonneg := by
+      refine ⟨by decide +kernel, fun v => ?_, fun q v => ?_⟩
+      · show (0 : Rat) ≤ if v = 0 then 1/2 else 1/4
+        split <;> decide +kernel
+      · show (0 : Rat) ≤ auF q v * (if v = 0 then 1/2 else 1/4)
+        have h1 : (0 : Rat) ≤ auF q v := by unfold auF; split <;> decide +kernel
+        have h2 : (0 : Rat) ≤ (if v = 0 then 1/2 else 1/4) := by split <;> decide +kernel
+        exact Rat.mul_nonneg h1 h2
+    rcases hf with rfl | rfl <;> exact hn)
+-- C05_lm_states on the first call (all its hypotheses: contract, WF, StatesOK, frame link, legitimate topk)
+example := C05_lm_states (V := 2) (by decide) 3 none ([] : List Nat) (histLM_ok 2 auF) (wf_init 2)
+  (st := initState) (sts := [[]])
+  (by intro k hk; rw [(validB_init k).1 hk]; rfl)
+  (f := auLmSpec) (nonext := [auH, auQ]) (blank := auQ) [0, 1, 2] rfl
+  (by intro v hv
+      match v, hv with
+      | 0, _ => rfl
+      | 1, _ => rfl)
+  (fun _ _ => rfl) (by decide +kernel)
+
+/-- nothing pruned: the same frames with width 9 ≥ 7 distinct candidates … `C05_array_exact_unpruned` needs
+`Unpruned`; one frame, width 3 = number of candidates (`[]`, `[0]`, `[1]`). -/
+theorem auOne_good : GoodRun 2 3 initState (auFrames.take 1) [auSpec] := by
+  obtain ⟨s, hs, hl, he, hn, hk, _⟩ := auFrames_good
+  exact ⟨s, hs, hl, he, hn, hk, trivial⟩
+
+theorem auOne_unpruned : Ctc.Unpruned 2 [auSpec] (keepsOf 2 3 initState (auFrames.take 1)) Ctc.beamInit := by
+  have hk : keepsOf 2 3 initState (auFrames.take 1) = [[[0], [1], []]] := by decide +kernel
+  rw [hk]
+  refine ⟨?_, trivial⟩
+  intro p hp
+  have : p ∈ [[], [0], [1]] := by simpa [Ctc.cands, Ctc.Beam.keys, Ctc.beamInit, List.range_succ] using hp
+  simp only [List.mem_cons, List.mem_nil_iff, or_false] at this
+  rcases this with rfl | rfl | rfl <;> simp
+
+example := C05_array_exact_unpruned (V := 2) (by decide) 3 (by decide) (auFrames.take 1) (auFrames.drop 1) [auSpec]
+  auOne_good (by intro f hf; simp only [List.mem_singleton] at hf; subst hf; exact auSpec_nonneg)
+  auOne_unpruned 1 (by decide) (1/4) (by decide +kernel)
+example := Ctc.C05_exact_unpruned 2 [auSpec] _ auOne_unpruned [1]
 
 end PdtVerif.CtcPrefix
